@@ -354,8 +354,8 @@ Proof.
   assert (Eend : l_put x pl = pl ++ [x]) by (apply l_put_end; assumption).
   assert (EF : above s (pl ++ [x]) = F ++ [x]).
   { rewrite EF0. unfold above. rewrite filter_app. cbn [filter]. assert (E : t_nonce x <? s = false) by lia. rewrite E. reflexivity. }
-  assert (Est1 : st_nonce (promote_tx c a x p) a = s) by (rewrite Es; apply Est; rewrite Eq; reflexivity).
-  assert (Epd1 : aget a (p_pend (promote_tx c a x p)) = pl ++ [x]) by (rewrite Eq; psimpl; rewrite aget_aset_same, <- Epl; exact Eend).
+  assert (Est1 : st_nonce (promote_tx c a x p) a = s) by (apply Est; rewrite Eq; reflexivity).
+  assert (Epd1 : aget a (p_pend (promote_tx c a x p)) = pl ++ [x]) by (rewrite Eq; psimpl; rewrite aget_aset_same; exact Eend).
   assert (Epn1 : pn_get (promote_tx c a x p) a = t_nonce x + 1) by (rewrite Eq, pn_get_pn_set, N.eqb_refl; reflexivity).
   assert (HC1 : CRa (promote_tx c a x p) a).
   { unfold CRa, CRc. rewrite Est1, Epd1, Epn1, EF. split.
@@ -422,4 +422,190 @@ Proof.
   apply (sv_CR _ _ V4). intros b. destruct (N.eq_dec b a) as [->|Hb]; [exact HCa|].
   destruct (promote_list_other c a readies p2' b Hb) as [A [B C]]. fold p3 in A, B, C.
   eapply CRa_ext; [exact C|exact A|exact B|]. apply (sv_CRa _ _ b V2'). apply HC.
+Qed.
+
+Lemma promote_list_ICR c l p : Inv0 p /\ CR p -> Inv0 (promote_list c l p) /\ CR (promote_list c l p).
+Proof.
+  revert p. induction l as [|a l IH]; intros p [H HC]; cbn; [auto|]. apply IH. split; [apply promote_one_inv0|apply promote_one_CR]; auto.
+Qed.
+Lemma add_locked_ICR c txs loc p : Inv0 p /\ CR p -> Inv0 (fst (fst (add_locked c txs loc p))) /\ CR (fst (fst (add_locked c txs loc p))).
+Proof.
+  revert p. induction txs as [|t r IH]; intros p [H HC]; cbn; [auto|].
+  pose proof (add_inv0 c t loc p H) as X1. pose proof (add_CR c t loc p H HC) as X2.
+  destruct (add c t loc p) as [[p1 v] rep]. cbn [fst] in *.
+  specialize (IH p1 (conj X1 X2)). destruct (add_locked c r loc p1) as [[p2 vs] d]. exact IH.
+Qed.
+
+(* demoteUnexecutables leaves a contiguous list *)
+Lemma strict_kept_prefix bal mg l rem inv kept :
+  sorted l -> l_filter true bal mg l = (rem, inv, kept) ->
+  kept = l \/ exists n, kept = filter (fun x => t_nonce x <? n) l.
+Proof.
+  intros Hs. unfold l_filter. destruct (filter (unpayable bal mg) l) as [|x0 r0] eqn:Er; [intros [= <- <- <-]; left; reflexivity|].
+  intros [= <- <- <-]. right. exists (min_nonce x0 r0). rewrite filter_filter. apply filter_ext_in. intros x Hx.
+  destruct (min_nonce_le x0 r0) as [M1 M2].
+  assert (Hrem : forall y, In y (x0 :: r0) <-> In y l /\ unpayable bal mg y = true) by (intros y; rewrite <- Er; apply filter_In).
+  destruct (unpayable bal mg x) eqn:Eu; cbn.
+  - assert (In x (x0 :: r0)) by (apply Hrem; auto). destruct H as [<-|H]; [lia|]. specialize (M2 _ H). lia.
+  - destruct (min_nonce x0 r0 <? t_nonce x) eqn:E1; destruct (t_nonce x <? min_nonce x0 r0) eqn:E2; cbn; try reflexivity; try lia.
+    (* equal nonce: x would be the unpayable transaction that realises the minimum *)
+    exfalso. destruct (min_nonce_in x0 r0) as [M|[y [Hy M]]].
+    + assert (In x0 l /\ unpayable bal mg x0 = true) by (apply Hrem; left; reflexivity).
+      assert (x = x0) by (eapply sorted_nonce_inj; eauto; [tauto|lia]). subst. destruct H; congruence.
+    + assert (In y l /\ unpayable bal mg y = true) by (apply Hrem; right; exact Hy).
+      assert (x = y) by (eapply sorted_nonce_inj; eauto; [tauto|lia]). subst. destruct H; congruence.
+Qed.
+
+Lemma demote_one_contig c a p : Inv0 p -> CRc p a -> contig (st_nonce p a) (aget a (p_pend (demote_one c a p))).
+Proof.
+  intros H0 HC. unfold demote_one. unfold CRc, above in HC.
+  pose proof (inv0_any a _ H0) as H. set (pl := aget a (p_pend p)) in *.
+  assert (Spl : sorted pl) by apply (ir_pend _ _ _ H a).
+  pose proof (l_forward_splits (st_nonce p a) pl Spl) as Sf.
+  destruct (l_forward (st_nonce p a) pl) as [olds l1] eqn:Ef.
+  assert (El1 : l1 = filter (fun x => negb (t_nonce x <? st_nonce p a)) pl) by (unfold l_forward in Ef; inversion Ef; reflexivity).
+  cbn [fst snd] in Sf. assert (Sl1 : sorted l1) by (destruct Sf as [_ [_ [S _]]]; exact S).
+  rewrite <- El1 in HC.
+  destruct (l_filter true (st_bal p a) (s_maxgas (p_st p)) l1) as [[drops invalids] l2] eqn:EF.
+  assert (C2 : contig (st_nonce p a) l2).
+  { destruct (strict_kept_prefix _ _ _ _ _ _ Sl1 EF) as [->|[n ->]]; [exact HC|apply contig_below; exact HC]. }
+  set (p1 := all_remove_list olds (set_pend a l1 p)).
+  set (p2 := all_remove_list drops (set_pend a l2 p1)).
+  set (p4 := fold_left (fun s t => requeue c t s) invalids p2).
+  assert (E4 : aget a (p_pend p4) = l2).
+  { unfold p4. destruct (requeue_list_fields c invalids p2) as [E _]. cbn in E. rewrite E. apply aget_pend_after_drop. }
+  destruct l2 as [|y l2'] eqn:El2; [rewrite E4; exact I|].
+  destruct (l_get (st_nonce p a) (y :: l2')) eqn:Eg; [rewrite E4; exact C2|].
+  destruct (requeue_list_fields c (y :: l2') (set_pend a [] p4)) as [E _]. cbn zeta in E. rewrite E. psimpl. rewrite aget_aset_same. exact I.
+Qed.
+
+Lemma demote_all_Kc c p : Inv0 p -> (forall a, CRc p a) -> Kc (demote_all c p).
+Proof.
+  intros H0 HC. unfold demote_all.
+  assert (G : forall l q, Inv0 q -> (forall a, CRc q a) ->
+     let q' := fold_left (fun s a => demote_one c a s) l q in
+     Inv0 q' /\ (forall a, CRc q' a) /\ p_st q' = p_st q /\ (forall b, In b l -> contig (st_nonce q b) (aget b (p_pend q'))) /\
+     (forall b, ~ In b l -> aget b (p_pend q') = aget b (p_pend q))).
+  { induction l as [|a l IH]; intros q Hq HCq; cbn [fold_left]; cbn zeta.
+    - split; [exact Hq|]. split; [exact HCq|]. split; [reflexivity|]. split; [intros ? []|reflexivity].
+    - destruct (demote_one_view c a q) as [Vst [Vpn Vb]].
+      pose proof (demote_one_contig c a q Hq (HCq a)) as Ca.
+      assert (HC' : forall b, CRc (demote_one c a q) b).
+      { intros b. unfold CRc, st_nonce. rewrite Vst. destruct (N.eq_dec b a) as [->|Hb].
+        - unfold above. rewrite filter_all; [exact Ca|]. intros x Hx. pose proof (contig_nonces _ _ _ Ca Hx). unfold st_nonce in *. lia.
+        - rewrite (Vb b Hb). apply HCq. }
+      destruct (IH (demote_one c a q) (demote_one_inv0 c a q Hq) HC') as [A [B [C [D E]]]]. cbn zeta in *.
+      split; [exact A|]. split; [exact B|]. split; [congruence|]. split.
+      + intros b [<-|Hb].
+        * destruct (in_dec N.eq_dec a l) as [Hin|Hnin].
+          -- specialize (D a Hin). unfold st_nonce in *. rewrite Vst in D. exact D.
+          -- rewrite (E a Hnin). exact Ca.
+        * specialize (D b Hb). unfold st_nonce in *. rewrite Vst in D. exact D.
+      + intros b Hb. rewrite E; [|intros Hl; apply Hb; right; exact Hl]. apply Vb. intros ->. apply Hb. left; reflexivity. }
+  destruct (G (akeys (p_pend p)) p H0 HC) as [A [B [C [D E]]]]. cbn zeta in *.
+  intros b. unfold st_nonce. rewrite C.
+  destruct (in_dec N.eq_dec b (akeys (p_pend p))) as [Hin|Hnin]; [apply D; exact Hin|].
+  rewrite (E b Hnin), (aget_notin b _ Hnin). exact I.
+Qed.
+
+(* ---------- the chain state is only changed by head events ---------- *)
+Definition st_is (S : chainst) (p : pool) : Prop := p_st p = S.
+Lemma promote_one_st c a p : p_st (promote_one c a p) = p_st p.
+Proof.
+  unfold promote_one. destruct (aget a (p_queue p)); [reflexivity|].
+  destruct (l_forward _ _) as [fw q1]. destruct (l_filter _ _ _ _) as [[drops inv] q2].
+  destruct (l_ready _ _) as [readies q3]. destruct (l_cap _ _) as [caps q4].
+  destruct (sv_removed (len fw + len drops + len caps) (all_remove_list caps (set_queue a q4 (fold_left (fun s t => promote_tx c a t s) readies (set_queue a q3 (all_remove_list drops (set_queue a q2 (all_remove_list fw (set_queue a q1 p))))))))) as [A _].
+  rewrite A. destruct (all_remove_list_fields caps (set_queue a q4 (fold_left (fun s t => promote_tx c a t s) readies (set_queue a q3 (all_remove_list drops (set_queue a q2 (all_remove_list fw (set_queue a q1 p)))))))) as [_ [_ [_ [E _]]]].
+  rewrite E. psimpl. destruct (promote_list_fields c a readies (set_queue a q3 (all_remove_list drops (set_queue a q2 (all_remove_list fw (set_queue a q1 p)))))) as [_ [E2 _]].
+  cbn zeta in E2. rewrite E2. psimpl.
+  destruct (all_remove_list_fields drops (set_queue a q2 (all_remove_list fw (set_queue a q1 p)))) as [_ [_ [_ [E3 _]]]]. rewrite E3. psimpl.
+  destruct (all_remove_list_fields fw (set_queue a q1 p)) as [_ [_ [_ [E4 _]]]]. rewrite E4. reflexivity.
+Qed.
+Lemma add_locked_st c txs loc p : p_st (fst (fst (add_locked c txs loc p))) = p_st p.
+Proof.
+  revert p. induction txs as [|t r IH]; intros p; cbn; [reflexivity|].
+  destruct (add c t loc p) as [[p1 v] rep] eqn:Ea. destruct (add_view _ _ _ _ _ _ _ Ea) as [E _].
+  specialize (IH p1). destruct (add_locked c r loc p1) as [[p2 vs] d]. cbn [fst] in *. congruence.
+Qed.
+Lemma tail_st c qo p : p_st (fix_nonces (truncate_queue c qo (truncate_pending c p))) = p_st p.
+Proof.
+  destruct (fix_nonces_view (truncate_queue c qo (truncate_pending c p))) as [A _]. rewrite A.
+  apply (truncate_queue_pres (st_is (p_st p))); [intros t q Hq; unfold st_is in *; destruct (remove_tx_view c t true q) as [E _]; congruence|].
+  apply (truncate_pending_pres (st_is (p_st p))); [intros a q Hq; unfold st_is in *; destruct (drop_last_view a q) as [E _]; congruence|reflexivity].
+Qed.
+Lemma run_st c rs dirty qo p : p_st (run c rs dirty qo p) = match rs with Some r => r_st r | None => p_st p end.
+Proof.
+  unfold run. rewrite tail_st. destruct rs as [r|].
+  - psimpl. unfold demote_all.
+    assert (G : forall l q, p_st (fold_left (fun s a => demote_one c a s) l q) = p_st q).
+    { induction l as [|a l IH]; intros q; cbn; [reflexivity|]. rewrite IH. apply demote_one_view. }
+    rewrite G. assert (G2 : forall l q, p_st (fold_left (fun s a => promote_one c a s) l q) = p_st q).
+    { induction l as [|a l IH]; intros q; cbn; [reflexivity|]. rewrite IH. apply promote_one_st. }
+    unfold promote_list. rewrite G2. unfold do_reset. pose proof (add_locked_st c (reinject r) false (set_pn [] (set_st (r_st r) p))) as X.
+    destruct (add_locked c (reinject r) false _) as [[p2 vs] d]. exact X.
+  - assert (G2 : forall l q, p_st (fold_left (fun s a => promote_one c a s) l q) = p_st q).
+    { induction l as [|a l IH]; intros q; cbn; [reflexivity|]. rewrite IH. apply promote_one_st. }
+    apply G2.
+Qed.
+Lemma step_st c p o qo : p_st (fst (step c p o qo)) = match o with OHead r => r_st r | _ => p_st p end.
+Proof.
+  destruct o as [loc txs|g|r|]; cbn.
+  - unfold add_txs. pose proof (add_locked_st c (filter (fun t => negb (all_has t p)) txs) loc p) as X.
+    destruct (add_locked c _ loc p) as [[p1 vs] d]. cbn [fst] in *. rewrite run_st. exact X.
+  - rewrite run_st. unfold set_gas_price. destruct (_ <? _); [|reflexivity].
+    destruct (sv_removed (len (filter (fun t => t_price t <? g) (remotes (set_gasprice g p)))) (fold_left (fun s t => remove_tx c t false s) (filter (fun t => t_price t <? g) (remotes (set_gasprice g p))) (set_gasprice g p))) as [A _].
+    rewrite A. apply (fold_pres (st_is (p_st p)) (fun s t => remove_tx c t false s)); [|reflexivity].
+    intros t q Hq. unfold st_is in *. destruct (remove_tx_view c t false q) as [E _]. congruence.
+  - apply run_st.
+  - apply run_st.
+Qed.
+
+(* ---------- contiguity along histories whose head events never lower a state nonce ---------- *)
+Fixpoint monotone (S : chainst) (h : list (op * list N)) : Prop :=
+  match h with
+  | [] => True
+  | (OHead r, _) :: h' => (forall a, nget a (s_nonce S) <= nget a (s_nonce (r_st r))) /\ monotone (r_st r) h'
+  | _ :: h' => monotone S h'
+  end.
+
+Lemma step_K c p o qo :
+  IWT p -> K p -> (match o with OHead r => forall a, st_nonce p a <= nget a (s_nonce (r_st r)) | _ => True end) ->
+  K (fst (step c p o qo)).
+Proof.
+  intros HI HK Hm. apply Kc_T4_K; [|apply (step_IWT c p o qo HI)].
+  destruct HI as [H0 [HW HT]]. destruct o as [loc txs|g|r|]; cbn.
+  - assert (I1 : Inv0 (fst (fst (add_txs c txs loc p))) /\ K (fst (fst (add_txs c txs loc p)))).
+    { unfold add_txs. set (news := filter (fun t => negb (all_has t p)) txs).
+      assert (G : forall l q, Inv0 q /\ K q -> Inv0 (fst (fst (add_locked c l loc q))) /\ K (fst (fst (add_locked c l loc q)))).
+      { induction l as [|t l IH]; intros q [A B]; cbn; [split; assumption|].
+        pose proof (add_inv0 c t loc q A) as X1. pose proof (add_K c t loc q A B) as X2.
+        destruct (add c t loc q) as [[q1 v] rep]. cbn [fst] in *.
+        specialize (IH q1 (conj X1 X2)). destruct (add_locked c l loc q1) as [[q2 vs] d]. exact IH. }
+      specialize (G news p (conj H0 HK)). destruct (add_locked c news loc p) as [[p1 vs] d]. exact G. }
+    destruct (add_txs c txs loc p) as [[p1 vs] d]. cbn [fst] in *. unfold run. apply tail_Kc. apply K_Kc.
+    assert (G : forall l q, Inv0 q /\ K q -> Inv0 (promote_list c l q) /\ K (promote_list c l q)).
+    { induction l as [|a l IH]; intros q [A B]; cbn; [auto|]. apply IH. split; [apply promote_one_inv0|apply promote_one_K]; auto. }
+    apply G. exact I1.
+  - unfold run. apply tail_Kc. cbn. apply set_gas_price_Kc. apply K_Kc. exact HK.
+  - unfold run. apply tail_Kc. apply (sv_Kc (demote_all c (promote_list c (akeys (p_queue (do_reset c r p))) (do_reset c r p)))); [repeat split|].
+    assert (I1 : Inv0 (do_reset c r p) /\ CR (do_reset c r p)).
+    { unfold do_reset. pose proof (add_locked_ICR c (reinject r) false (set_pn [] (set_st (r_st r) p))) as X.
+      destruct (add_locked c (reinject r) false _) as [[p2 vs] d]. apply X. split; [eapply invr_same; [|exact H0]; repeat split|].
+      apply CR_after_swap; assumption. }
+    apply promote_list_ICR with (c := c) (l := akeys (p_queue (do_reset c r p))) in I1. destruct I1 as [A B].
+    apply demote_all_Kc; [exact A|]. intros a. apply (B a).
+  - unfold run. apply tail_Kc. cbn. apply K_Kc. exact HK.
+Qed.
+
+Lemma init_K pl st : K (init pl st).
+Proof. intros a. constructor; cbn; [exact I|]. unfold pn_get, len; cbn. lia. Qed.
+
+Lemma run_hist_K c h p : IWT p -> K p -> monotone (p_st p) h -> K (run_hist c p h).
+Proof.
+  revert p. induction h as [|[o qo] h IH]; intros p HI HK Hm; cbn [run_hist fold_left]; [exact HK|].
+  change (K (run_hist c (fst (step c p o qo)) h)). apply IH.
+  - apply step_IWT. exact HI.
+  - apply step_K; auto. destruct o as [| |r|]; auto. destruct Hm as [Hm _]. exact Hm.
+  - rewrite step_st. destruct o as [| |r|]; cbn in Hm; try exact Hm. destruct Hm as [_ Hm]. exact Hm.
 Qed.
